@@ -269,7 +269,8 @@ def run_check(pid, modname, tier, argv=()):
     # ----- classify violations
     findings = load_findings()
     known = {f["signature"]: f for f in findings if f.get("property") == pid and f.get("status") == "known"}
-    rdir = os.path.join(VERIF, "replays", pid)
+    outroot = os.environ.get("VERIF_OUT") or VERIF      # scratch runs (seeded trees) must not touch the committed evidence
+    rdir = os.path.join(outroot, "replays", pid)
     new_violations = 0
     lines = []
     known_seen = []
@@ -326,8 +327,8 @@ def run_check(pid, modname, tier, argv=()):
         "wall_s": round(wall, 3),
         "violations": new_violations,
     }
-    os.makedirs(os.path.join(VERIF, "evidence"), exist_ok=True)
-    with open(os.path.join(VERIF, "evidence", pid + ".json"), "w") as f:
+    os.makedirs(os.path.join(outroot, "evidence"), exist_ok=True)
+    with open(os.path.join(outroot, "evidence", pid + ".json"), "w") as f:
         json.dump(ev, f, indent=1, sort_keys=True, default=jdefault)
 
     for l in lines:
